@@ -564,7 +564,7 @@ def run(ctx):
     # ---- 1. translate + prove
     with vf.Lock('gen.export'):
         try:
-            tab = export_table.regenerate(vf.INC)
+            tab = export_table.regenerate(vf.INC, out_v=os.path.join(vf.COQ, 'gen', 'Gen_export.v'))
             tie_error = None
         except export_table.TableError as ex:
             tab, tie_error = None, str(ex)
@@ -695,7 +695,7 @@ def replay(ctx, path):
     if rp.get('kind') != 'line':
         print('replay file carries no input line (table/proof level finding): %s' % json.dumps(rp)[:400])
         with vf.Lock('gen.export'):
-            export_table.regenerate(vf.INC)
+            export_table.regenerate(vf.INC, out_v=os.path.join(vf.COQ, 'gen', 'Gen_export.v'))
             vf.coq_props(ctx, PID)
         oracle = vf.oracle_build('export')
         rows = vf.run_lines(oracle, ['FWD']).stdout.strip()
@@ -706,7 +706,7 @@ def replay(ctx, path):
     D = 3 if v.endswith('z') else 2
     exe = vf.build_cpp(ctx, 'cx_export.cpp', v)
     with vf.Lock('gen.export'):
-        export_table.regenerate(vf.INC)
+        export_table.regenerate(vf.INC, out_v=os.path.join(vf.COQ, 'gen', 'Gen_export.v'))
         vf.coq_make(['gen/Gen_export.vo'])
     oracle = vf.oracle_build('export')
     cmd = rp['line'].split()[0]
